@@ -2,6 +2,7 @@ package ast
 
 import (
 	"fmt"
+	"sort"
 
 	"github.com/ah-naf/borno/token"
 	"golang.org/x/text/unicode/norm"
@@ -140,17 +141,31 @@ func (a *ArrayAccess) String() string {
 // ObjectLiteral represents an object literal in the source code.
 type ObjectLiteral struct {
 	Properties map[string]Expr
+	Keys       []string // property names in source order (each name once)
+}
+
+// OrderedKeys returns the property names in source order. Literals built
+// without Keys (e.g. by hand) fall back to sorted order, so the result never
+// depends on map iteration.
+func (o *ObjectLiteral) OrderedKeys() []string {
+	if len(o.Keys) == len(o.Properties) {
+		return o.Keys
+	}
+	keys := make([]string, 0, len(o.Properties))
+	for key := range o.Properties {
+		keys = append(keys, key)
+	}
+	sort.Strings(keys)
+	return keys
 }
 
 func (o *ObjectLiteral) String() string {
 	val := "{"
-	i := 0
-	for key, value := range o.Properties {
+	for i, key := range o.OrderedKeys() {
 		if i > 0 {
 			val += ", "
 		}
-		val += fmt.Sprintf("%s: %s", key, value.String())
-		i++
+		val += fmt.Sprintf("%s: %s", key, o.Properties[key].String())
 	}
 	val += "}"
 	return val
